@@ -371,3 +371,95 @@ def unique_pinv_hint(rec, cand):
             prem.append(core.tob(CA[i, j] == CA[j, i]))
     concl = [core.tob(_obj(X)[idx] == C[idx]) for idx in _np.ndindex(*C.shape)]
     ENG.axioms.append(z3.Implies(z3.And(*prem), z3.And(*concl)))
+
+
+# ---- exact witnesses at a point instantiation ---------------------------------------------------
+def _frac_matrix_pinv(A):
+    """exact Moore-Penrose inverse of a rational matrix (rank factorisation A = F G; A+ = G^T (G G^T)^-1 (F^T F)^-1 F^T)"""
+    m, n = len(A), len(A[0])
+    R = [row[:] for row in A]
+    piv = []
+    r = 0
+    for c in range(n):
+        p = next((i for i in range(r, m) if R[i][c] != 0), None)
+        if p is None:
+            continue
+        R[r], R[p] = R[p], R[r]
+        pv = R[r][c]
+        R[r] = [x / pv for x in R[r]]
+        for i in range(m):
+            if i != r and R[i][c] != 0:
+                f = R[i][c]
+                R[i] = [x - f * y for x, y in zip(R[i], R[r])]
+        piv.append(c)
+        r += 1
+        if r == m:
+            break
+    k = len(piv)
+    if k == 0:
+        return [[Fraction(0)] * m for _ in range(n)]
+    F = [[A[i][c] for c in piv] for i in range(m)]          # m x k
+    G = [R[i][:] for i in range(k)]                          # k x n
+
+    def mul(X, Y):
+        return [[sum(X[i][t] * Y[t][j] for t in range(len(Y))) for j in range(len(Y[0]))] for i in range(len(X))]
+
+    def tr(X):
+        return [list(c) for c in zip(*X)]
+
+    def inv(M):
+        d = len(M)
+        aug = [M[i][:] + [Fraction(int(i == j)) for j in range(d)] for i in range(d)]
+        for c in range(d):
+            p = next(i for i in range(c, d) if aug[i][c] != 0)
+            aug[c], aug[p] = aug[p], aug[c]
+            pv = aug[c][c]
+            aug[c] = [x / pv for x in aug[c]]
+            for i in range(d):
+                if i != c and aug[i][c] != 0:
+                    f = aug[i][c]
+                    aug[i] = [x - f * y for x, y in zip(aug[i], aug[c])]
+        return [row[d:] for row in aug]
+    return mul(mul(tr(G), inv(mul(G, tr(G)))), mul(inv(mul(tr(F), F)), tr(F)))
+
+
+def witness_hyps(hyps):
+    """At a point instantiation (hyps fix every input) compute the exact rational value of every recorded pinv / solve
+    unknown and return them as additional hypotheses, so that the solver only has to CHECK the stub equations there.
+    Returns None if some matrix entry is not rational at that point."""
+    s = z3.Solver()
+    s.set('timeout', 20000)
+    for a in ENG.assumes:
+        s.add(a)
+    for c in ENG.pc:
+        s.add(c)
+    for h in hyps:
+        s.add(core.tob(h))
+    if str(s.check()) != 'sat':
+        return None
+    m = s.model()
+
+    def val(x):
+        v = m.eval(core.toz(x), model_completion=True)
+        v = z3.simplify(v)
+        if z3.is_int_value(v):
+            return Fraction(v.as_long())
+        if z3.is_rational_value(v):
+            return v.as_fraction()
+        return None
+    out = list(hyps)
+    for (A, X) in ENG.records.get('pinv', []):
+        Av = [[val(A[i, j]) for j in range(A.shape[1])] for i in range(A.shape[0])]
+        if any(x is None for row in Av for x in row):
+            return None
+        P = _frac_matrix_pinv(Av)
+        for i in range(len(P)):
+            for j in range(len(P[0])):
+                out.append(core.toz(X[i, j]) == z3.RealVal(str(P[i][j])))
+        # later records may depend on this one: re-solve with the new equalities
+        for h in out[len(hyps):]:
+            s.add(h)
+        if str(s.check()) != 'sat':
+            return None
+        m = s.model()
+    return out
